@@ -16,6 +16,7 @@ pub mod c13;
 pub mod c14;
 pub mod c15;
 pub mod c16;
+pub mod c17;
 pub mod c18;
 pub mod common;
 
@@ -37,6 +38,7 @@ pub fn run(ctx: &Ctx) -> Option<CheckOutput> {
 		"C14" => c14::run(ctx),
 		"C15" => c15::run(ctx),
 		"C16" => c16::run(ctx),
+		"C17" => c17::run(ctx),
 		"C18" => c18::run(ctx),
 		_ => return None,
 	})
@@ -46,6 +48,7 @@ pub fn run(ctx: &Ctx) -> Option<CheckOutput> {
 pub fn worker(check: &str, tier: &str, part: usize, nparts: usize, start: usize, progress: &str) {
 	match check {
 		"C04" => c04::worker(tier, part, nparts, start, progress),
+		"C17" => c17::worker(tier, part, nparts, start, progress),
 		_ => {
 			eprintln!("no worker for {check}");
 			std::process::exit(3);
@@ -83,6 +86,7 @@ pub fn replay_file(path: &str) -> i32 {
 			"C14" => c14::replay(case),
 			"C15" => c15::replay(case),
 			"C16" => c16::replay(case),
+			"C17" => c17::replay(case),
 			"C18" => c18::replay(case),
 			_ => Some(format!("no replayer for {prop}")),
 		}
